@@ -1,6 +1,6 @@
 /-
   Relic.Proofs.ReaderProgs — which primitives the digester programs use (`Prog.Free`): the side conditions of
-  `run_flat` for `digestPE`, `digestCab`, `digestPS`.
+  `run_flat` for `digestPE`, `digestCabOrig`, `digestPS`.
 -/
 import Relic.Proofs.ReaderCalc
 import Relic.Model.ReaderProgs
@@ -243,8 +243,8 @@ theorem cabBody_free {α} {r p b : Bool} {k : Cab.Digest → Prog α} (h : ∀ x
   · exact cabRest_free _ _ h
 
 /-- `cabfile.Digest` uses `binary.Read`, `io.ReadFull`, `io.CopyN` and the one-byte probe -/
-theorem digestCab_free : digestCab.Free true false true := by
-  unfold digestCab
+theorem digestCabOrig_free : digestCabOrig.Free true false true := by
+  unfold digestCabOrig
   refine cabBody_free fun d => ?_
   refine ⟨rfl, fun e => ?_⟩
   cases e with
@@ -252,11 +252,11 @@ theorem digestCab_free : digestCab.Free true false true := by
   | some t => cases t <;> trivial
 
 /-- with the proposed fix there is no probe left -/
-theorem digestCabFixed_free : digestCabFixed.Free true true true := by
-  unfold digestCabFixed
+theorem digestCab_free : digestCab.Free true true true := by
+  unfold digestCab
   refine cabBody_free fun d => ?_
   intro b e
-  unfold cabTailFixed.match_1
+  unfold cabTail.match_1
   cases e with
   | limit => show Prog.Free true true true (if 0 < b.length then _ else _); split <;> trivial
   | src t => cases t with
@@ -362,23 +362,23 @@ theorem raProg_free {α} (c : RAClient α) (pos : Nat) : (raProg c pos).Free tru
         | ok b => exact ih _ _
         | short got t => exact ih _ _
 
-theorem tarNext_free {α} {r p b : Bool} (st : TarSt) {k : TarNext → Prog α} (h : ∀ x, (k x).Free r p b) :
-    (tarNext st k).Free r p b := by
-  unfold tarNext
+theorem tarNextE_free {α} {r p b : Bool} (st : TarSt) {k : TarNextE → Prog α} (h : ∀ x, (k x).Free r p b) :
+    (tarNextE st k).Free r p b := by
+  unfold tarNextE
   intro _ e0
   cases e0 with
-  | src t => trivial
+  | src t => exact h _
   | limit =>
     intro rp
     cases rp with
-    | short g t => cases t <;> first | exact h _ | trivial
+    | short g t => cases t <;> exact h _
     | ok _ =>
       intro rb
       cases rb with
       | short g t =>
         cases g with
-        | nil => cases t <;> first | exact h _ | trivial
-        | cons _ _ => trivial
+        | nil => cases t <;> exact h _
+        | cons _ _ => exact h _
       | ok blk =>
         show Prog.Free r p b (if blk.all (· = 0) then _ else _)
         split
@@ -386,14 +386,21 @@ theorem tarNext_free {α} {r p b : Bool} (st : TarSt) {k : TarNext → Prog α} 
           cases rb2 with
           | short g t =>
             cases g with
-            | nil => cases t <;> first | exact h _ | trivial
-            | cons _ _ => trivial
+            | nil => cases t <;> exact h _
+            | cons _ _ => exact h _
           | ok blk2 =>
             show Prog.Free r p b (if blk2.all (· = 0) then _ else _)
-            split
-            · exact h _
-            · trivial
+            split <;> exact h _
         · exact h _
+
+theorem tarNext_free {α} {r p b : Bool} (st : TarSt) {k : TarNext → Prog α} (h : ∀ x, (k x).Free r p b) :
+    (tarNext st k).Free r p b := by
+  unfold tarNext
+  refine tarNextE_free _ fun x => ?_
+  cases x with
+  | hdr _ _ => exact h _
+  | eof => exact h _
+  | err _ => trivial
 
 theorem tarCopy_free {α} {r p b : Bool} (st : TarSt) (lim : Option Nat) (sc : Sched) {k : Bytes → Bool → TarSt → Prog α}
     (h : ∀ x y z, (k x y z).Free r p b) : (tarCopy st lim sc k).Free r p b := by
@@ -439,6 +446,85 @@ theorem msiLoop_free (ext : Bool) (isSig : Bytes → Bool) (ex : Bytes) (fuel : 
       · split
         · exact ih _
         · exact tarCopy_free _ _ _ fun _ _ _ => ih _
+
+theorem zEnd_free {α} {r p b : Bool} (st : ZSt) {k : String → Prog α} (h : ∀ x, (k x).Free r p b) :
+    (zEnd st k).Free r p b := by
+  unfold zEnd
+  refine tarNextE_free _ fun x => ?_
+  cases x <;> exact h _
+
+theorem zSkip_free {α} {r p b : Bool} (n : Nat) (st : ZSt) {k : Option String → ZSt → Prog α}
+    (h : ∀ x y, (k x y).Free r p b) : (zSkip n st k).Free r p b := by
+  unfold zSkip
+  split
+  · exact h _ _
+  split
+  · exact h _ _
+  split
+  · exact zEnd_free _ fun _ => h _ _
+  · intro x e
+    cases e with
+    | src t => exact h _ _
+    | limit =>
+      show Prog.Free r p b (if x.length < st.nb then _ else _)
+      split
+      · exact h _ _
+      · refine zEnd_free _ fun e => ?_
+        show Prog.Free r p b (if n ≤ st.nb then _ else _)
+        split <;> exact h _ _
+
+theorem zRead_free {α} {r p b : Bool} (len : Nat) (st : ZSt) {k : ZAns → ZSt → Prog α}
+    (h : ∀ x y, (k x y).Free r p b) : (zRead len st k).Free r p b := by
+  unfold zRead
+  split
+  · exact h _ _
+  split
+  · exact h _ _
+  split
+  · exact zEnd_free _ fun _ => h _ _
+  · intro x
+    cases x with
+    | short got t => exact h _ _
+    | ok bb =>
+      show Prog.Free r p b (if bb.length < st.nb then _ else _)
+      split
+      · exact h _ _
+      · refine zEnd_free _ fun e => ?_
+        show Prog.Free r p b (if len ≤ st.nb then _ else _)
+        split <;> exact h _ _
+
+theorem zipTarClient_free {α} (c : ZClient α) (st : ZSt) : (zipTarClient c st).Free true true true := by
+  induction c generalizing st with
+  | done a => trivial
+  | fail e => trivial
+  | readAt len off k ih =>
+    simp only [zipTarClient]
+    split
+    · exact ih _ _
+    · refine zSkip_free _ _ fun se st1 => ?_
+      cases se with
+      | some e => exact ih _ _
+      | none => exact zRead_free _ _ fun ans st2 => ih _ _
+
+theorem readZipTar_free {α} (mk : Bytes → Nat → ZClient α) : (readZipTar mk).Free true true true := by
+  unfold readZipTar
+  refine tarNextE_free _ fun r1 => ?_
+  cases r1 with
+  | eof => trivial
+  | err e => trivial
+  | hdr h1 st1 =>
+    show Prog.Free true true true (if h1.name ≠ zipdirName then _ else _)
+    split
+    · trivial
+    · refine tarCopy_free _ _ _ fun cd _ st2 => tarNextE_free _ fun r2 => ?_
+      cases r2 with
+      | eof => trivial
+      | err e => trivial
+      | hdr h2 st3 =>
+        show Prog.Free true true true (if h2.name ≠ contentsName then _ else _)
+        split
+        · trivial
+        · exact zipTarClient_free _ _
 
 theorem hashPagesLoop_free (ps fuel : Nat) (acc : List Bytes) (lim : Nat) :
     (hashPagesLoop ps fuel acc lim).Free true true true := by
